@@ -256,6 +256,9 @@ theorem wf_apply (n : Node) (op : Op) (hw : WF n) : WF (n.apply sigOK op) := by
     cases res <;> first | exact hadd | exact wf_stopPeer _ id hadd
   | mkreq =>
     simp only [Node.apply]
+    unfold Pool.routineStep
+    split; · exact hw
+    split; · exact hw
     unfold Pool.makeNextRequester
     split
     · exact hw
@@ -451,41 +454,5 @@ def fairRun (w : Nat) (base tip : Int) (chain : Int → Block) : List (List Op) 
         n1.run sigOK (fairRound n1.pool.height w base tip (chain n1.pool.height) (chain (n1.pool.height + 1)))
       else n1
     fairRun w base tip chain rest n2
-
-theorem fairRun_reaches (st0 : St) (chain : Int → Block) (start tip : Int) (w : Nat) (base : Int)
-    (hc : HonestChain sigOK st0 chain start tip) (hb0 : 0 ≤ base) (hbs : base ≤ start) :
-    ∀ (segs : List (List Op)) (n : Node) (k : Nat), WF n → Canon st0 chain start k n →
-      tip - (start + k) ≤ segs.length →
-      ∃ k', Canon st0 chain start k' (fairRun sigOK w base tip chain segs n) ∧ tip ≤ start + k' ∧
-        WF (fairRun sigOK w base tip chain segs n) := by
-  intro segs
-  induction segs with
-  | nil =>
-    intro n k hw hk hlen
-    exact ⟨k, hk, by simp at hlen; omega, hw⟩
-  | cons A rest ih =>
-    intro n k hw hk hlen
-    simp only [fairRun]
-    have hw1 := wf_run sigOK n A hw
-    obtain ⟨k1, hk1, c1⟩ := canon_run sigOK st0 chain start tip hc A n k hw hk
-    generalize n.run sigOK A = n1 at *
-    by_cases hlt : n1.pool.height < tip
-    · simp only [hlt, if_true]
-      have hsave := fairRound_saves sigOK n1 hw1 w base tip (chain n1.pool.height) (chain (n1.pool.height + 1))
-        hb0 (by rw [c1.2]; omega) hlt (hc.heights _) (hc.heights _) (hc.wellFormed _) (hc.wellFormed _)
-        (by
-          have := hc.pairOK k1 (by rw [← c1.2]; exact hlt)
-          rw [c1.1, c1.2]; exact this)
-      obtain ⟨_, s2, s3⟩ := hsave
-      have hw2 := wf_run sigOK n1 (fairRound n1.pool.height w base tip (chain n1.pool.height)
-        (chain (n1.pool.height + 1))) hw1
-      generalize n1.run sigOK (fairRound n1.pool.height w base tip (chain n1.pool.height)
-        (chain (n1.pool.height + 1))) = n2 at *
-      have c2 : Canon st0 chain start (k1 + 1) n2 := by
-        refine ⟨?_, by rw [s3, c1.2]; push_cast; omega⟩
-        rw [s2, c1.1, c1.2]; rfl
-      exact ih n2 (k1 + 1) hw2 c2 (by simp at hlen; push_cast; omega)
-    · simp only [hlt, if_false]
-      exact ih n1 k1 hw1 c1 (by have := c1.2; simp at hlen; omega)
 
 end Tmv.BlockSync
